@@ -75,6 +75,10 @@ CheckFn(t) ==
     LET P == Len(t.scores)
         C == Len(t.scores[1])
     IN  IF ~IsMatrix01(t.out, P, C) THEN "C20.reassign: result is not a PxC 0/1 matrix"
+        ELSE IF Has(t, "outc") /\ t.out # t.outc
+        THEN "C20.layout: _reassign_precisions on the same values in memory layout '" \o t.lay \o "' returns "
+                 \o ToString(t.out) \o " but " \o ToString(t.outc) \o " for contiguous tensors; best=" \o ToString(t.best)
+                 \o " scores=" \o ToString(t.scores)
         ELSE
         LET one   == \A c \in 1..C : ColOnes(t.out, c) = 1
             met   == \A p \in 1..P : RowSum(t.out, p) = t.best[p]
@@ -115,7 +119,13 @@ CheckLayer(L) ==
         n1     == Counts(L.after, P)
         chosen == RoundVecU(L.bestu)
         exact  == \A p \in 1..P : NearInt(L.bestu[p])
-        legit  == exact /\ IsComposition(chosen, C) /\ Dominates(chosen, n0, order)
+        \* the searches never move the channels of a 0-bit row: pruned channels stay pruned
+        zerokept == \A p \in 1..P : L.bits[p] = 0 => chosen[p] = n0[p]
+        legit  == exact /\ IsComposition(chosen, C) /\ Dominates(chosen, n0, order) /\ zerokept
+        \* F27 is a float32 residue of n/C - n*(1/C): impossible when 1/C is exact, and it leaves counts that
+        \* are integers up to that residue
+        pow2   == \E k \in 0..14 : C = 2 ^ k
+        f27dom == exact /\ ~pow2
         lowered == {c \in 1..C : L.bits[L.after[c]] < L.bits[L.before[c]]}
         met    == \A p \in 1..P : n1[p] = chosen[p]
         \* the pinned greedy algorithm on the rounded counts / on the int()-truncated counts
@@ -155,11 +165,11 @@ CheckLayer(L) ==
               THEN <<"drift", "C20 " \o what \o ": visited configurations differ from the transcription of the searches">>
               ELSE <<"ok", "">>)
         ELSE IF ~legit
-        THEN (IF compatT /\ negChosen /\ negVisited
+        THEN (IF compatT /\ negChosen /\ negVisited /\ f27dom
               THEN <<"F27", what \o raw>>
-              ELSE <<"viol", "C20.chosen " \o what \o ": the chosen counts are not reachable by promoting channels" \o raw>>)
+              ELSE <<"viol", "C20.chosen " \o what \o ": the chosen counts are not non-negative integers summing to the width, reachable by promoting channels, with the pruned (0-bit) count unchanged" \o raw>>)
         ELSE IF compatR THEN <<"F18", what>>
-        ELSE IF compatT /\ truncated THEN <<"F27", what \o raw>>
+        ELSE IF compatT /\ truncated /\ f27dom THEN <<"F27", what \o raw>>
         ELSE <<"viol", "C20.assign " \o what \o
                   (IF lowered # {} THEN ": channels lowered" ELSE ": chosen counts not met")>>)
 
@@ -213,6 +223,7 @@ CheckMLife(t) ==
     ELSE
     LET pred == LifeRun(LifeInit, t.hist, 1)
         hs   == "after the calls " \o ToString(t.hist)
+                   \o (IF Has(t, "lay") THEN " with alpha stored in memory layout '" \o t.lay \o "'" ELSE "")
     IN  IF Has(t, "raised")
         THEN "C20.history: optimize_prec_assignment fails (" \o t.raised \o ") " \o hs
                  \o " although it succeeds on a fresh model with the same alpha"
